@@ -80,7 +80,8 @@ def _digest(x):
 # (stages called out of turn were tried here and dropped: restructure_branch on
 # a graph that still has cycles fails at a block picked in set order - which
 # block the KeyError names is not a "result" the statement speaks about)
-HISTORIES = ["orphan", "refused_remove", "refused_middle", "fail_mend_retry", "fail_retry"]
+HISTORIES = ["orphan", "refused_remove", "refused_middle", "fail_mend_retry", "fail_retry",
+             "queries_first", "repeat"]
 
 
 def _fault_history(scfg, g, which, parts):
@@ -90,6 +91,26 @@ def _fault_history(scfg, g, which, parts):
     from numba_scfg.core.datastructures.basic_block import SyntheticFill
 
     names = list(g)
+    if which == "queries_first":
+        # the public queries are asked on the object before it is restructured
+        # (their answers are part of the result), then the pipeline runs
+        try:
+            comps = [sorted(c) for c in scfg.compute_scc()]
+            ans = [["scc", sorted(comps)]]
+            for comp in sorted(comps):
+                try:
+                    ans.append(["he", comp, [list(x) for x in scfg.find_headers_and_entries(set(comp))]])
+                except AssertionError:
+                    ans.append(["he", comp, "precondition"])
+                ans.append(["ee", comp, [list(x) for x in scfg.find_exiting_and_exits(set(comp))]])
+            ans.append(["head", scfg.find_head()])
+            parts.append(("queries", _digest(ans)))
+        except Exception as e:
+            k = attach.exc_key(e)
+            parts.append(("queries", _digest(["exception", k["type"], k["site"], k["text"]])))
+        return
+    if which == "repeat":
+        return  # handled after the pipeline
     if which in ("fail_mend_retry", "fail_retry"):
         # restructure() is refused (a stray block without predecessors: the
         # branch stage finds two heads) after the loops were already wrapped;
@@ -167,6 +188,16 @@ def graph_parts(g, payload="basic", history=None):
                 k = attach.exc_key(e)
                 parts.append((st, _digest(["exception", k["type"], k["site"], k["text"]])))
                 break
+        if history == "repeat":
+            # the branch stage and then the whole pipeline a second time
+            for nm in ("restructure_branch", "restructure"):
+                try:
+                    getattr(scfg, nm)()
+                    parts.append(("again:" + nm, _digest(dump(scfg)) if _nesting_ok(scfg)
+                                  else _digest("cyclic hierarchy")))
+                except Exception as e:
+                    k = attach.exc_key(e)
+                    parts.append(("again:" + nm, _digest(["exception", k["type"], k["site"], k["text"]])))
     except budget.BudgetExceeded:
         parts.append(("budget", _digest("stage does not come back after the fault history")))
     finally:
